@@ -68,6 +68,14 @@ def run_case(case):
             continue
         e_opt = obj(best_enum)
         if best_map > e_opt and not H.close(best_map, e_opt, rel=2.0 ** (-16 if metric.startswith("ENERGY_D") else -18)):
+            fin = [m["name"] for m in d["arch"]["mems"] if m.get("size", "inf") != "inf"]
+            better = [x for x in space if obj(x) < best_map and not H.close(obj(x), best_map, rel=2.0 ** -16)]
+            if better and all(any(abs(x[2].get(m, 0.0) - 1.0) <= 1e-6 for m in fin) for x in better):
+                # every enumerated mapping that beats the mapper fills a memory exactly (C08 exact-fit finding)
+                viol.append({"sig": "mapper_misses_exact_fit_optimum",
+                             "witness": {"metric": metric, "mapper_best": best_map, "enumerated_optimum": e_opt, "ratio": best_map / e_opt,
+                                         "better_tree": best_enum[3], "usage": best_enum[2], "spec": gs.summary(d)}})
+                continue
             viol.append({"sig": f"mapper_misses_optimum:{metric}:{d['arch']['size_class']}",
                          "witness": {"metric": metric, "mapper_best": best_map, "enumerated_optimum": e_opt, "ratio": best_map / e_opt,
                                      "better_tree": best_enum[3], "spec": gs.summary(d)}})
